@@ -367,3 +367,10 @@ Proof.
       * exists (f :: a1 ++ a2). split; [assumption|]. rewrite R1. congruence.
     + exists (f :: a1 ++ a2). split; [assumption|]. rewrite R1. discriminate.
 Qed.
+
+(* the known finding: the registration order of generic instances is not order independent *)
+Theorem generic_instance_emission_order_refuted :
+  exists u1 u2, Permutation u1 u2 /\ reg_order u1 [] <> reg_order u2 [].
+Proof.
+  exists [[4]; [8]], [[8]; [4]]. split; [apply perm_swap|]. vm_compute. discriminate.
+Qed.
